@@ -40,11 +40,13 @@ CONSTANTS MaxStreams,      \* advertised SETTINGS_MAX_CONCURRENT_STREAMS
           MaxDepth,        \* bound on the number of peer/backend steps of a behaviour
           MaxValid,        \* generator: length of the valid prefix
           Deviations,      \* open known findings modelled as the code behaves
-          Emit             \* "off" | "cover" (one line per prefix state) | "walk" (one line per behaviour)
+          Emit             \* "off" (depth-bounded) | "mc" (valid prefix, then arbitrary frames) |
+                           \* "cover" (one REPLAY line per prefix state) | "walk" (one REPLAY line per behaviour)
 
 VARIABLES st, hist
 vars == <<st, hist>>
 
+Generating == Emit \in {"cover", "walk"}    \* generator configurations (S->I): histories are recorded
 Sid5    == {0, 1, 2, 3, 5}
 IsEven(x) == x # 0 /\ x % 2 = 0
 
@@ -221,7 +223,7 @@ HandleSettings(s, f) ==
   ELSE LET s1 == Bump(Bump(s, "settings"), "settingsLife")
        IN IF Tripped(s1) THEN FloodRes(s1)
           ELSE CASE f.pay \in {"push2", "frame_small"} -> GoAwayRes(s1, "PE", "-")
-                 [] f.pay = "win_big" -> GoAwayRes(s1, IF "WinBigCode" \in Deviations THEN "PE" ELSE "FCE", "-")
+                 [] f.pay = "win_big" -> GoAwayRes(s1, "FCE", "-")
                  [] f.pay = "unknown_id" -> Res(Bump(Bump(s1, "glitch"), "gmin"), Handle, "-")
                  [] OTHER -> Res(s1, Handle, "-")
 
@@ -285,8 +287,7 @@ HeaderStage(s, f) ==
   THEN IF f.ty \notin {"WU", "PRIORITY", "RST"} /\ s.ss[f.sid] = "hcr" THEN GoAwayRes(s, "SC", "-")
        ELSE IF f.ty = "HEADERS" /\ ~HasES(f) THEN GoAwayRes(s, "PE", "-")
        ELSE BodyStage(s, f, FALSE, Ignore)
-  ELSE IF f.ty = "HEADERS" /\ f.sid \in OddSids /\ f.sid > s.wm
-             /\ (f.sid > s.hi \/ "ReuseRefusedId" \in Deviations)
+  ELSE IF f.ty = "HEADERS" /\ f.sid \in OddSids /\ f.sid > s.wm /\ f.sid > s.hi   \* a refused id is not accepted again
   THEN IF s.cs = "draining" \/ Active(s) >= MaxStreams THEN Refuse(s, f)
        ELSE BodyStage([SetSS(s, f.sid, "hdr") EXCEPT !.hi = Max2(@, f.sid), !.wm = f.sid + 1], f, TRUE, Ignore)
   ELSE IF f.ty = "PRIORITY" THEN BodyStage(s, f, FALSE, Ignore)
@@ -332,7 +333,7 @@ Sozu(s, f) ==
             ELSE c
       \* generator modes: the replayer follows every frame with a marker PING, whose handler runs the flood
       \* check and so trips on an anomaly that was counted without a check (unknown SETTINGS identifier)
-  IN IF Emit # "off" /\ ~c1.s.gs /\ ~BlockOpen(c1.s) /\ Tripped(c1.s)
+  IN IF Generating /\ ~c1.s.gs /\ ~BlockOpen(c1.s) /\ Tripped(c1.s)
      THEN [c1 EXCEPT !.s.gs = TRUE, !.r = Goaway("EYC"), !.why = IF WindowTripped(c1.s) THEN "flood" ELSE "glitch"]
      ELSE c1
 
@@ -472,21 +473,20 @@ Fwd(s, t) == LET xs == {x \in OddSids : s.ss[x] \notin {"open", "hcr"} /\ t.ss[x
              IN IF xs = {} THEN 0 ELSE CHOOSE x \in xs : TRUE
 \* the open deviations that shape the code model's answer in this state
 DevOf(s, f) ==
-  (IF "WinBigCode" \in Deviations /\ f.ty = "SETTINGS" /\ f.pay = "win_big" THEN {"WinBigCode"} ELSE {})
-  \cup (IF "RefusedBlockDropped" \in Deviations /\ (s.ecRef # 0 \/ (s.hpPeer /\ ~s.hpSozu /\ f.pay = "idx_use"))
+  (IF "RefusedBlockDropped" \in Deviations /\ (s.ecRef # 0 \/ (s.hpPeer /\ ~s.hpSozu /\ f.pay = "idx_use"))
         THEN {"RefusedBlockDropped"} ELSE {})
-  \cup (IF "ReuseRefusedId" \in Deviations /\ f.ty = "HEADERS" /\ f.sid \in OddSids /\ f.sid > s.wm /\ f.sid <= s.hi
-        THEN {"ReuseRefusedId"} ELSE {})
 NoFrame == F("-", "-", 0, "-", "-")
-HRec(h) == IF Emit = "off" THEN hist ELSE Append(hist, h)
+HRec(h) == IF Generating THEN Append(hist, h) ELSE hist
 
-CanStep(s) == s.depth < MaxDepth /\ s.cs # "closed"
+\* "mc": every state reached by at most MaxValid valid frames, then every sequence of at most MaxDepth frames
+CanStep(s) == s.cs # "closed" /\ (IF Emit = "mc" THEN s.nany < MaxDepth ELSE s.depth < MaxDepth)
 
 \* client preface: "ok" = magic + SETTINGS; the others are not a valid connection start
 Peer_Preface(kind) ==
   /\ st.cs = "preface" /\ ~st.gs /\ CanStep(st)
-  /\ st' = IF kind = "ok" THEN [st EXCEPT !.cs = "settingsWait", !.depth = @ + 1, !.fc.settings = 1, !.fc.settingsLife = 1]  \* the preface SETTINGS counts (per-window; sozu does not count it for the lifetime... it does: same handler)
-                          ELSE [st EXCEPT !.gs = TRUE, !.depth = @ + 1]
+  /\ (Emit = "walk" /\ MaxValid > 1 => kind = "ok")      \* bad prefaces are sampled by the MaxValid = 1 walks only
+  /\ st' = IF kind = "ok" THEN [st EXCEPT !.cs = "settingsWait", !.depth = IF Emit = "mc" THEN @ ELSE @ + 1, !.fc.settings = 1, !.fc.settingsLife = 1]  \* the preface SETTINGS counts (per-window; sozu does not count it for the lifetime... it does: same handler)
+                          ELSE [st EXCEPT !.gs = TRUE, !.depth = IF Emit = "mc" THEN @ ELSE @ + 1]
   /\ hist' = HRec(Step("preface", F("-", "-", 0, "-", kind),
                       IF kind = "ok" THEN Handle ELSE CloseR,
                       IF kind = "ok" THEN {Handle} ELSE {CloseR, Goaway("PE")}, FALSE, 0, {}, FALSE))
@@ -497,8 +497,8 @@ Peer_Frame(f) ==
   /\ (Emit = "cover" => st.nany = 0 /\ st.nvalid < MaxValid)
   /\ LET c == Sozu(st, f)
          isValid == Valid(st, f)
-     IN /\ (Emit # "off" /\ st.nany = 0 /\ st.nvalid < MaxValid) => isValid     \* generator: valid prefix first
-        /\ st' = [c.s EXCEPT !.depth = @ + 1,
+     IN /\ (Generating /\ st.nany = 0 /\ st.nvalid < MaxValid) => isValid     \* generator: valid prefix first
+        /\ st' = [c.s EXCEPT !.depth = IF Emit = "mc" THEN @ ELSE @ + 1,
                              !.nvalid = IF st.nany = 0 /\ isValid /\ st.nvalid < MaxValid THEN @ + 1 ELSE @,
                              !.nany = IF st.nany = 0 /\ isValid /\ st.nvalid < MaxValid THEN @ ELSE @ + 1]
         /\ hist' = HRec(Step("frame", f, c.r, React(st, f), BlockOpen(c.s), Fwd(st, c.s), DevOf(st, f), Trl(st, f)))
@@ -511,7 +511,7 @@ Sozu_Respond(x) ==
          \* the last stream of a draining connection: final GOAWAY(NO_ERROR) and close
          s2 == IF st.cs = "draining" /\ Active(s1) = 0 THEN [s1 EXCEPT !.gs = TRUE] ELSE s1
          r  == IF s2.gs THEN Goaway("NO") ELSE Handle
-     IN /\ st' = [s2 EXCEPT !.depth = @ + 1, !.nvalid = IF Emit = "off" THEN @ ELSE @ + 1]
+     IN /\ st' = [s2 EXCEPT !.depth = IF Emit = "mc" THEN @ ELSE @ + 1, !.nvalid = IF Emit = "off" THEN @ ELSE @ + 1]
         /\ hist' = HRec(Step("respond", F("-", "-", x, "-", "-"), r, {r}, FALSE, 0, {}, FALSE))
 
 \* after a GOAWAY (or a silent drop) the socket is released
@@ -522,7 +522,7 @@ Sozu_Close ==
 
 \* the 1 s flood window expires: per-window counters are halved (H2FloodDetector::maybe_reset_window)
 Tick_Decay ==
-  /\ Emit = "off" /\ ~Dead(st) /\ st.cs # "preface"
+  /\ ~Generating /\ ~Dead(st) /\ st.cs # "preface"
   /\ \E c \in {"rst", "ping", "settings", "empty", "wu0", "glitch"} : st.fc[c] > 0
   /\ st' = [st EXCEPT !.fc = [c \in Counters |->
                                 IF c \in {"rst", "ping", "settings", "empty", "wu0", "glitch", "gmin"}
@@ -531,7 +531,7 @@ Tick_Decay ==
 
 \* no SETTINGS ACK within SETTINGS_ACK_TIMEOUT: GOAWAY(SETTINGS_TIMEOUT)
 Sozu_SettingsTimeout ==
-  /\ Emit = "off" /\ st.cs = "settingsWait" /\ ~st.gs
+  /\ ~Generating /\ st.cs = "settingsWait" /\ ~st.gs
   /\ st' = [st EXCEPT !.gs = TRUE]
   /\ UNCHANGED hist
 
